@@ -110,6 +110,8 @@ type Val struct {
 	Fins  []string `json:"fins"`
 	Val   int      `json:"val"`
 	Owner string   `json:"owner"`
+	// Lab: the resource carries the label "on" (configurations with Filtered list only such inputs)
+	Lab bool `json:"lab"`
 }
 
 type Snap struct {
@@ -126,6 +128,7 @@ type Line struct {
 	Cleanup     bool   `json:"cleanup"`
 	Destroyer   bool   `json:"destroyer"`
 	Optional    bool   `json:"optional"`
+	Filtered    bool   `json:"filtered"`
 	Extra       bool   `json:"extra"`
 	Ctrl        string `json:"ctrl"`
 	Kind        string `json:"kind"`
@@ -151,6 +154,7 @@ func idOf(s string) int {
 func valOf(r resource.Resource) Val {
 	md := r.Metadata()
 	v := Val{Ver: vh.VersionInt(md.Version()), Phase: vh.PhaseName(md.Phase()), Fins: []string{}, Owner: md.Owner()}
+	_, v.Lab = md.Labels().Get("on")
 
 	for _, f := range *md.Finalizers() {
 		v.Fins = append(v.Fins, f)
@@ -327,6 +331,9 @@ type Config struct {
 	Extra bool
 	// SameNS: inputs and outputs live in the same namespace
 	SameNS bool
+	// Filtered: transform.WithInputListOptions(label "on" exists): only labelled inputs are mapped; the external actor puts the
+	// label on new inputs and takes it off / puts it back with its update operations (value 3 = no label)
+	Filtered bool
 }
 
 var Configs = []Config{
@@ -347,6 +354,8 @@ var Configs = []Config{
 	{Name: "T", Fin: true, SameNS: true},
 	{Name: "T", Fin: false, SameNS: true},
 	{Name: "Q", Q: true, Fin: true, Concurrency: 2, SameNS: true},
+	{Name: "T", Fin: true, Filtered: true},
+	{Name: "T", Fin: false, Filtered: true},
 }
 
 type gateT struct {
@@ -444,7 +453,7 @@ func runBehaviour(t *testing.T, tr *vh.Trace, tid string, cfg Config, beh []Cmd)
 			tr.Emit(l)
 		}
 
-		emit(Line{Ev: "reset", Fin: cfg.Fin, IgnoreTd: cfg.IgnoreTd, IgnoreUntil: cfg.IgnoreUntil, Cleanup: cfg.Cleanup, Ctrl: cfg.Name, Destroyer: cfg.Destroyer, Optional: cfg.Optional, Extra: cfg.Extra})
+		emit(Line{Ev: "reset", Fin: cfg.Fin, IgnoreTd: cfg.IgnoreTd, IgnoreUntil: cfg.IgnoreUntil, Cleanup: cfg.Cleanup, Ctrl: cfg.Name, Destroyer: cfg.Destroyer, Optional: cfg.Optional, Extra: cfg.Extra, Filtered: cfg.Filtered})
 
 		rec := &recorder{CoreState: namespaced.NewState(inmem.Build), emit: emit, last: map[string]Val{}}
 		st := state.WrapCore(rec)
@@ -535,6 +544,10 @@ func runBehaviour(t *testing.T, tr *vh.Trace, tid string, cfg Config, beh []Cmd)
 				opts = append(opts, transform.WithIgnoreTearingDownInputs())
 			}
 
+			if cfg.Filtered {
+				opts = append(opts, transform.WithInputListOptions(state.WithLabelQuery(resource.LabelExists("on"))))
+			}
+
 			if cfg.Extra {
 				opts = append(opts, transform.WithExtraInputs(controller.Input{Namespace: cNS, Type: cType, Kind: controller.InputWeak}))
 			}
@@ -585,11 +598,25 @@ func runBehaviour(t *testing.T, tr *vh.Trace, tid string, cfg Config, beh []Cmd)
 		for _, c := range beh {
 			switch c.C {
 			case "create":
-				st.Create(ctx, NewA(rid(c.ID), c.V)) //nolint:errcheck
+				in := NewA(rid(c.ID), c.V)
+				if cfg.Filtered && c.V != 3 {
+					in.Metadata().Labels().Set("on", "")
+				}
+
+				st.Create(ctx, in) //nolint:errcheck
 			case "update":
 				if cur, gerr := st.Get(ctx, aPtr(c.ID)); gerr == nil {
 					if a, ok := cur.(*A); ok && a.TypedSpec().Val != c.V {
 						a.TypedSpec().Val = c.V
+
+						if cfg.Filtered {
+							if c.V == 3 {
+								a.Metadata().Labels().Delete("on")
+							} else {
+								a.Metadata().Labels().Set("on", "")
+							}
+						}
+
 						st.Update(ctx, a, state.WithExpectedPhaseAny()) //nolint:errcheck
 					}
 				}
